@@ -190,7 +190,7 @@ impl Property for P {
     }
     fn rule(&self) -> String {
         "Generated: (one of 36 sealing suites, mode, ikmR, ikmS, psk, psk_id, info, RNG stream, 1..=12 messages with edge-biased pt/aad lengths incl. empty and block-straddling, per message alloc/in-place choice on each side; key pairs from the reference or from the library's own derive_keypair). \
-         Swept: all 36x4 suite/mode cells with a 4-message script mixing both APIs, plus the empty PSK bundle in every Psk/AuthPsk cell (the library accepts it; 15% of the generated cases use it too). \
+         Swept: all 36x4 suite/mode cells with a 4-message script mixing both APIs, plus the empty PSK bundle in every Psk/AuthPsk cell (the library accepts it; 15% of the generated cases use it too); every plaintext length and every aad length 0..=1100 per sealing AEAD, interface forms rotating. \
          In 40% of the cases the first message is additionally exchanged with one side using a single-shot form and the other a context (all four pairings). Oracle: the receiver built from (enc, skR, info, matching mode) opens message i, in order, to exactly pt_i; |ct| = |pt| + Nt; in-place keeps the length and returns an Nt-byte tag. \
          Non-trivial: (>=2 messages and one of length 0 or not a multiple of 16) or a non-Base mode."
             .into()
@@ -229,7 +229,22 @@ impl Property for P {
                 cells.push(Case { sess: e, lib_keys: false, msgs: vec![mk(0, 0, false, false), mk(5, 1, true, true), mk(16, 0, false, true)], single_shot: 2 });
             }
         }
-        vec![("suite_x_mode_cells".into(), cells)]
+        // every plaintext length and every aad length 0..=1100 per sealing AEAD (20 messages per
+        // session, interface forms rotating so that every length meets several form pairs)
+        let mut dense = Vec::new();
+        for (ai, aead) in crate::refmodel::hpke_ref::AeadId::SEALING.into_iter().enumerate() {
+            let s = Suite { kem: crate::refmodel::hpke_ref::KemId::X25519, kdf: crate::refmodel::hpke_ref::KdfId::ALL[ai % 3], aead };
+            let mut from = 0usize;
+            while from <= 1100 {
+                let to = (from + 19).min(1100);
+                let by_pt: Vec<MsgApi> = (from..=to).map(|n| MsgApi { pt: Bytes(gen::fill(n, 5, n as u64)), aad: Bytes(gen::fill(n % 9, 5, 78)), seal_in_place: (n + ai) % 2 == 0, open_in_place: (n / 2 + ai) % 2 == 0 }).collect();
+                let by_aad: Vec<MsgApi> = (from..=to).map(|n| MsgApi { pt: Bytes(gen::fill(n % 7, 5, n as u64)), aad: Bytes(gen::fill(n, 5, 79)), seal_in_place: (n / 2 + ai) % 2 == 0, open_in_place: (n + ai) % 2 == 0 }).collect();
+                dense.push(Case { sess: gen::cell_session(s, (from / 20 % 4) as u8, 4), lib_keys: false, msgs: by_pt, single_shot: 0 });
+                dense.push(Case { sess: gen::cell_session(s, ((from / 20 + 1) % 4) as u8, 5), lib_keys: false, msgs: by_aad, single_shot: 0 });
+                from = to + 1;
+            }
+        }
+        vec![("suite_x_mode_cells".into(), cells), ("every_plaintext_and_aad_length_per_aead".into(), dense)]
     }
     fn check(&self, case: &Case, obs: &mut Obs) -> Verdict {
         check(case, obs)
